@@ -225,4 +225,31 @@ example : (recover { files := [{ num := 1, batches := [[.entry 1 10, .prune 1]] 
 example : (recover { files := [{ num := 1, batches := [[.entry 1 10]] }, { num := 3, batches := [[.entry 2 11]] }],
                      wm := some 1 }).toOption = some [(2, [11])] := by decide
 
+-- the failures inside the cleanup, on a store whose next prune flush has reached the interval:
+-- log 1 and log 2 are both obsolete (nothing references them), the watermark becomes 5
+def demoStore : Store := { writer := some 2, nextWAL := 3, known := [1, 2], idx := { pruned := 5 }, sinceCleanup := 256 }
+def demoDisk : Disk :=
+  { files := [{ num := 1, batches := [[.entry 3 1, .prune 3]] }, { num := 2, batches := [[.prune 5]] }], wm := some 3 }
+example : (cleanup demoStore demoDisk 2 .none).out = .ok ∧
+    (cleanup demoStore demoDisk 2 .none).disk.files = [] ∧
+    (cleanup demoStore demoDisk 2 .none).disk.wm = some 5 ∧ (cleanup demoStore demoDisk 2 .none).st.sinceCleanup = 0 := by decide
+-- the second unlink fails: log 1 is gone, log 2 stays and is forgotten by the manager, the counter is kept
+example : (cleanup demoStore demoDisk 2 (.unlink 1)).out = .errCommitted ∧
+    (cleanup demoStore demoDisk 2 (.unlink 1)).disk.files.map (·.num) = [2] ∧
+    (cleanup demoStore demoDisk 2 (.unlink 1)).disk.zombies.map (·.num) = [1] ∧
+    (cleanup demoStore demoDisk 2 (.unlink 1)).st.known = [] ∧
+    (cleanup demoStore demoDisk 2 (.unlink 1)).st.sinceCleanup = 256 := by decide
+-- the directory sync after the rename fails: the new watermark is there but the old one may come back
+example : (cleanup demoStore demoDisk 2 .wmSync).out = .errCommitted ∧
+    (cleanup demoStore demoDisk 2 .wmSync).disk.wm = some 5 ∧
+    (cleanup demoStore demoDisk 2 .wmSync).disk.wmAlt = some (some 3) ∧
+    ((cleanup demoStore demoDisk 2 .wmSync).disk.resurrect [] true).wm = some 3 ∧
+    (cleanup demoStore demoDisk 2 .wmSync).st.writer = some 2 := by decide
+-- the rotation fails: everything else still happens, the flush reports the error
+example : (cleanup demoStore demoDisk 2 .rotate).out = .errCommitted ∧
+    (cleanup demoStore demoDisk 2 .rotate).disk.files = [] ∧ (cleanup demoStore demoDisk 2 .rotate).st.writer = none := by decide
+-- manager.Create fails: not committed, nothing changed
+example : ((Sys.init.run [.reopen, .set 1 10]).step (.flush .create)).2 = .errNotCommitted ∧
+    ((Sys.init.run [.reopen, .set 1 10]).step (.flush .create)).1.disk = (Sys.init.run [.reopen, .set 1 10]).disk := by decide
+
 end Juno.C14.Props
